@@ -5,6 +5,8 @@ use std::collections::BTreeMap;
 use std::io::Write;
 
 pub mod hll;
+pub mod oracles;
+pub mod props;
 pub mod structs;
 
 pub struct Failure {
@@ -109,6 +111,19 @@ pub fn split_cases<'a>(ops: &'a [String], ans: &'a [String]) -> Vec<(u64, usize,
 fn generate(prop: &str, ctx: &mut Ctx) {
     match prop {
         "C17" => hll::gen_c17(ctx),
+        "C01" => props::gen_c01(ctx),
+        "C02" => props::gen_c02(ctx),
+        "C06" => props::gen_c06(ctx),
+        "C09" => props::gen_c09(ctx),
+        "C10" => props::gen_c10(ctx),
+        "C12" => props::gen_c12(ctx),
+        "C13" => props::gen_c13(ctx),
+        "C14" => props::gen_c14(ctx),
+        "C15" | "C16" => props::gen_td(ctx, 150),
+        "C04" => props::gen_td(ctx, 600),
+        "C18" => props::gen_c18(ctx),
+        "C19" => props::gen_c19(ctx),
+        "C20" => props::gen_c20(ctx),
         "SMOKE" => {
             let n = 30 * ctx.tier_scale;
             for _ in 0..n {
@@ -132,6 +147,22 @@ pub fn oracle(prop: &str, ops: &[String], ans: &[String]) -> Vec<Failure> {
     for (case, start, o, a) in split_cases(ops, ans) {
         let r: Vec<(usize, String)> = match prop {
             "C17" => hll::oracle_c17(o, a),
+            "C01" => oracles::oracle_c01(o, a),
+            "C02" => oracles::oracle_c02(o, a),
+            "C06" => oracles::oracle_both_equal(o, a, "merge differs from processing both streams"),
+            "C09" => oracles::oracle_c09(o, a),
+            "C10" => oracles::oracle_c10(o, a),
+            "C12" => oracles::oracle_both_equal(o, a, "state changed by a failed operation"),
+            "C13" => oracles::oracle_c13(o, a),
+            "C14" => oracles::oracle_c14(o, a),
+            "C15" | "C16" | "C04" => oracles::oracle_td(o, a, prop),
+            "C18" => oracles::oracle_c18(o, a),
+            "C19" => oracles::oracle_both_equal(o, a, "cleared/cloned instance differs from fresh/original"),
+            "C20" => {
+                let mut v = oracles::oracle_both_equal(o, a, "deserialised sketch differs from the original");
+                v.extend(oracles::oracle_c20(o, a));
+                v
+            }
             _ => vec![],
         };
         for (l, m) in r {
